@@ -49,6 +49,9 @@ func TestCrashChild(t *testing.T) {
 	}
 	die := func() {
 		if rec != nil {
+			// the power-loss instant is NOW: the image is built from what is durable at this moment,
+			// so nothing acknowledged from here on counts (the process lives a little longer)
+			ack.freeze()
 			rec.materialise()
 		}
 		_ = syscall.Kill(os.Getpid(), syscall.SIGKILL)
